@@ -82,7 +82,10 @@ def build_inputs(ctx, rows_r, rows_nm, n_mut):
         add("typeof", s, "seed")
     for _ in range(n_mut):
         if rng.random() < 0.7:
-            add("cdef", pf.mutate(rng, rng.choice(pf.CDEF_SEEDS)), "mutant")
+            base = rng.choice(pf.CDEF_SEEDS)
+            if rng.random() < 0.2:                     # two declarations texts in a row (also twice the same)
+                base = base + (base if rng.random() < 0.5 else rng.choice(pf.CDEF_SEEDS))
+            add("cdef", pf.mutate(rng, base), "mutant")
         else:
             add("typeof", pf.mutate(rng, rng.choice(pf.TYPEOF_SEEDS)), "mutant")
     return inputs
@@ -136,13 +139,13 @@ def run(ctx):
     bad = checked_count(ctx, recs)
     for idx, clause in bad:
         r = recs[idx]
-        key = "%s:%s:%s:%s" % (r["ffi"], r["api"], r["cls"], r["site"])
+        key = vkey(r)
         ctx.violation(key, "%s: %s(%r) -> %s: %s" % (CLAUSE.get(clause, clause), r["api"], r["text"][:200], r["cls"], r["msg"]),
                       {"ffi": r["ffi"], "api": r["api"], "text": r["text"], "sanitized": r["site"].startswith("asan")})
     vk = {}
     for idx, clause in bad:
         r = recs[idx]
-        key = "%s:%s:%s:%s" % (r["ffi"], r["api"], r["cls"], r["site"])
+        key = vkey(r)
         e = vk.setdefault(key, {"n": 0, "examples": []})
         e["n"] += 1
         if len(e["examples"]) < 4:
@@ -173,6 +176,14 @@ import re
 _HUGE_SHIFT = re.compile(r"<<[-+~!(\s]*\d{4,}|<<[-+~!(\s]*0[xX][0-9a-fA-F]{3,}")
 
 
+def vkey(r):
+    """ffi:api:class:site[:head of the message, digits abstracted] - the specific call site and failure"""
+    if r["ffi"] != "inline":
+        return "%s:%s:%s:%s" % (r["ffi"], r["api"], r["cls"], r["site"])
+    head = re.sub(r"\d+", "N", r["msg"].split(":")[0])[:60]
+    return "%s:%s:%s:%s:%s" % (r["ffi"], r["api"], r["cls"], r["site"], head)
+
+
 def _encodable(t):
     try:
         t.encode("utf-8")
@@ -201,7 +212,7 @@ def replay(ctx, obj):
     bad = checked_count(ctx, recs)
     for idx, clause in bad:
         r = recs[idx]
-        ctx.violation("%s:%s:%s:%s" % (r["ffi"], r["api"], r["cls"], r["site"]), "%s: %s" % (CLAUSE.get(clause, clause), r["msg"]), rp)
+        ctx.violation(vkey(r), "%s: %s" % (CLAUSE.get(clause, clause), r["msg"]), rp)
     print("replayed %s(%r): %s %s" % (rp["api"], rp["text"], recs[0]["cls"], "REJECTED by the contract" if bad else "allowed"))
 
 
